@@ -846,8 +846,8 @@ theorem C12_refines_spec_full_counterexample : ¬ C12_refines_spec_full :=
 `Model/AckLock.lean` runs the sending calls and the processor as small-step programs over one
 mutex: any number of senders (one acknowledged request each: `Lock · writeMessage ·
 [verifAckWindow] · Wait · Unlock`), the processor (`next acknowledgement · Lock · Ack · Unlock ·
-processAcked`), and a peer that sends acknowledgements bearing any identifier at any time.  The
-theorems quantify over every schedule (`sched : List Choice`, any length; a choice that is not
+processAcked`), and a peer that sends acknowledgements bearing any identifier at any time.
+The theorems quantify over every schedule (`sched : List Choice`, any length; a choice that is not
 enabled is skipped).  What is proved is the ordering `Model/Client.step` gives the composite event
 `.apiEarlyAck`; the programs are tied to the source by `C12_ack_lock_structure_is_source`. -/
 
